@@ -137,6 +137,10 @@ func (r *run) doVerifyVia(sp hdrSpec, tag string, via string) (accepted bool) {
 	c, e := r.c, r.e
 	r.tick()
 	h, m := e.build(&sp)
+	if h == nil {
+		c.Count("gen:header-wire-form-undecodable")
+		return false
+	}
 	var err error
 	var panicked bool
 	var pmsg string
@@ -166,6 +170,9 @@ func (r *run) doVerifyVia(sp hdrSpec, tag string, via string) (accepted bool) {
 	}
 	c.Eval()
 	code := errCode(err, panicked)
+	if panicked {
+		c.Fail("panic:"+via, "a panic escaped "+via, r.full(via, sp), pmsg, "error or nil")
+	}
 	c.Count(via + ":" + code)
 	c.Count("gen:" + tag)
 	if code == "KOther" {
@@ -195,10 +202,17 @@ func (r *run) doAdd(sp hdrSpec, tag string) (accepted bool) {
 	c, e := r.c, r.e
 	r.tick()
 	h, m := e.build(&sp)
+	if h == nil {
+		c.Count("gen:header-wire-form-undecodable")
+		return false
+	}
 	var err error
 	panicked, pmsg := hx.Recover(func() { err = e.store.AddHeaders([]*types.Header{h}) })
 	c.Eval()
 	code := errCode(err, panicked)
+	if panicked {
+		c.Fail("panic:AddHeaders", "a panic escaped AddHeaders", r.full("add", sp), pmsg, "error or nil")
+	}
 	c.Count("add:" + code)
 	c.Count("gen:" + tag)
 	if code == "KOther" {
@@ -271,7 +285,7 @@ func (r *run) trackMap(after mPeers, accepted bool, sc scenario) {
 // classCase ties the driver's classification (finding classes, governing height) to the Coq
 // predicates of the partial theorem.
 func (r *run) classCase(st string, sp *hdrSpec, m *mHeader) {
-	cl := r.e.classify(sp)
+	cl := r.e.classify(sp, bkIDs(m.Bks))
 	g, ok := r.e.govHeight(sp.Height)
 	r.emit(fmt.Sprintf("(CClass %s %s %s %s %s %s %s)", st, coqHeader(m), hx.CoqBool(cl.stale), hx.CoqBool(cl.threshold),
 		hx.CoqBool(cl.dup), hx.CoqBool(cl.overwritten), coqOptN(ok, g)), r.caseDesc("classify", *sp))
@@ -315,6 +329,8 @@ func Run(c *hx.Ctx) {
 	r.witnessOverwrite()
 	r.fresh("rejected-poison")
 	r.probeRejectedPoison()
+	r.fresh("forged-encoding")
+	r.probeForgedEncoding()
 	r.fresh("blocksync")
 	r.blockSync(c.N(9, 30))
 	r.abort = false
@@ -368,9 +384,12 @@ func (r *run) replay(sc scenario) {
 	}
 }
 
-// vmsCases: signature.VerifyMultiSignature alone (the mask algorithm), on key lists with repeats.
+// vmsCases: signature.VerifyMultiSignature alone (the mask algorithm), on key lists with repeats,
+// mixed key types and hostile key encodings (decoded by types.HeaderFromRawBytes like a header's).
 func (r *run) vmsCases(n int) {
 	c, e := r.c, r.e
+	encs := []string{"uncompressed", "off+2", "off+6", "off+40", "off+1", "zero"}
+	mixed := []int{1, 2, 3, 4, 5, 6, 31, 32, 33, 34} // P-256 x6, SM2 x3, Ed25519
 	for i := 0; i < n; i++ {
 		nk := c.Intn(7)
 		var keys []int
@@ -378,39 +397,62 @@ func (r *run) vmsCases(n int) {
 			if j > 0 && c.Intn(4) == 0 {
 				keys = append(keys, keys[c.Intn(j)])
 			} else {
-				keys = append(keys, 1+c.Intn(10))
+				keys = append(keys, mixed[c.Intn(len(mixed))])
 			}
 		}
 		m := c.Intn(nk+3) - 1
 		sp := hdrSpec{Height: 1, PrevHeight: 0, Time: 1, Bks: keys, Salt: uint64(1000000 + i)}
 		ns := c.Intn(nk + 3)
 		for j := 0; j < ns; j++ {
-			sp.Sigs = append(sp.Sigs, r.randSig(keys, []int{1, 2, 3, 4, 5, 6, 7, 8, 9, 10}, j))
+			sp.Sigs = append(sp.Sigs, r.randSig(keys, mixed, j))
+		}
+		tag := "plain"
+		if nk > 0 && c.Intn(3) == 0 { // hostile encodings, the forged object first, a foreign-scheme blob first
+			tag = "hostile"
+			sp.Enc = make([]string, nk)
+			sp.Enc[0] = encs[c.Intn(len(encs))]
+			if nk > 1 && c.Intn(3) == 0 {
+				sp.Enc[1+c.Intn(nk-1)] = encs[c.Intn(len(encs))]
+			}
+			if len(sp.Sigs) > 0 && c.Intn(2) == 0 {
+				sp.Sigs[0] = r.foreignBlob(keys[0], mixed)
+			}
+			if m < 1 && c.Intn(2) == 0 {
+				m = 1
+			}
 		}
 		h, mh := e.build(&sp)
+		if h == nil {
+			c.Count("vms:key-wire-form-undecodable")
+			continue
+		}
 		hash := h.Hash()
 		var err error
-		panicked, _ := hx.Recover(func() { err = signature.VerifyMultiSignature(hash[:], h.Bookkeepers, m, h.SigData) })
+		panicked, pmsg := hx.Recover(func() { err = signature.VerifyMultiSignature(hash[:], h.Bookkeepers, m, h.SigData) })
 		c.Eval()
 		code := errCode(err, panicked)
-		c.Count("vms:" + code)
-		r.emit(fmt.Sprintf("(CVms %d %s %s %s %s)", mh.Hash, coqKeys(keys), hx.CoqZ(int64(m)), coqSigs(mh.Sigs), code),
-			map[string]interface{}{"vms": sp, "m": m})
-		if code == "KOk" && m > 0 {
-			// oracle on the implementation: an accepting run has >= m decodable signatures each
-			// valid under a listed key
-			valid := 0
-			for j := 0; j < m && j < len(h.SigData); j++ {
-				for _, k := range keys {
-					if e.realVerify(k, hash[:], h.SigData[j]) {
-						valid++
-						break
+		c.Count("vms-" + tag + ":" + code)
+		desc := map[string]interface{}{"vms": sp, "m": m}
+		r.emit(fmt.Sprintf("(CVms %d %s %s %s %s)", mh.Hash, coqBks(mh.Bks), hx.CoqZ(int64(m)), coqSigs(mh.Sigs), code), desc)
+		if panicked {
+			c.Fail("panic:VerifyMultiSignature", "a panic escaped VerifyMultiSignature", desc, pmsg, "error or nil")
+		}
+		genuine := bkGenuine(mh.Bks)
+		for j, b := range mh.Bks {
+			if b.Forged {
+				for _, raw := range h.SigData {
+					if ok, _ := guardedVerify(h.Bookkeepers[j], hash[:], raw); ok {
+						c.Fail("harness:forged-key-verifies", "a signature verifies under a key object that is no genuine pool key", desc, "verifies", "does not verify")
 					}
 				}
 			}
-			if valid < m {
-				c.Fail("vms:unsigned-slot", "VerifyMultiSignature accepted with fewer than m valid signatures among the first m",
-					map[string]interface{}{"vms": sp, "m": m}, valid, m)
+		}
+		if code == "KOk" && m > 0 {
+			// oracle on the implementation: an accepting run has its first m signatures valid under
+			// m distinct list positions holding GENUINE key objects (library called directly, guarded)
+			if len(h.SigData) < m || !matchSlots(e, hash[:], genuine, h.SigData[:m]) {
+				c.Fail("vms:accepted-without-valid-signatures", "VerifyMultiSignature returned nil although the first m signatures are not valid signatures of m distinct listed genuine keys",
+					desc, "nil", fmt.Sprintf("error (m=%d)", m))
 			}
 			b, _ := json.Marshal(sp)
 			c.Nontrivial("vms" + string(b))
